@@ -55,7 +55,9 @@ func (e EventJSONs) UntrustedEvents(roomVersion RoomVersion) []PDU {
 		event, err := verImpl.NewEventFromUntrustedJSON(js)
 		switch e := err.(type) {
 		case EventValidationError:
-			if !e.Persistable {
+			// A persistable error can come without an event (e.g. a room ID
+			// that is too long): there is nothing to keep in that case.
+			if !e.Persistable || event == nil {
 				continue
 			}
 		case nil:
